@@ -635,7 +635,7 @@ func (w *World) AbsApiPVCs() []string { return w.e.api.Names(RPVC) }
 func (w *World) AbsFaults() [][]interface{} {
 	out := [][]interface{}{}
 	for _, f := range w.e.api.faults {
-		out = append(out, []interface{}{f.K, f.Kind, f.Applied, f.Die, f.List})
+		out = append(out, []interface{}{f.K, f.Kind, f.Applied, f.Die, f.List, f.Evict})
 	}
 	return out
 }
